@@ -219,12 +219,18 @@ pub fn c06_part(report: &Report, max_len: usize) {
 
 /// runs `tools/pyfront.py families <from> <to>` with a watchdog; returns (result, index of the case that hung)
 fn run_py_families(from: u64, to: u64, timeout_s: u64) -> Result<Option<(Option<Value>, Option<u64>)>, String> {
+    run_py_watch(&["families", &from.to_string(), &to.to_string()], timeout_s)
+}
+
+/// runs `tools/pyfront.py <args>` with a watchdog; Ok(None) = front end not available; Ok(Some((None, marker))) = killed
+/// by the watchdog (marker = last progress marker `@i` seen on stderr)
+fn run_py_watch(args: &[&str], timeout_s: u64) -> Result<Option<(Option<Value>, Option<u64>)>, String> {
     use std::io::Read;
     let dir = verif_dir();
     let so = dir.join("pyfront").join("pkg").join("constriction.so");
     if !so.exists() { return Ok(None); }
     let mut child = match std::process::Command::new("python3-vt")
-        .arg(dir.join("tools").join("pyfront.py")).args(["families", &from.to_string(), &to.to_string()])
+        .arg(dir.join("tools").join("pyfront.py")).args(args)
         .env("PYTHONPATH", dir.join("pyfront").join("pkg")).env("PYTHONWARNINGS", "ignore")
         .stdout(std::process::Stdio::piped()).stderr(std::process::Stdio::piped()).spawn() {
         Ok(c) => c,
@@ -252,7 +258,7 @@ fn run_py_families(from: u64, to: u64, timeout_s: u64) -> Result<Option<(Option<
     if timed_out {
         return Ok(Some((None, last_marker)));
     }
-    let line = stdout.lines().rev().find(|l| l.starts_with('{')).ok_or_else(|| format!("pyfront.py families printed no result; stderr: {}", stderr.lines().rev().take(3).collect::<Vec<_>>().join(" / ")))?;
+    let line = stdout.lines().rev().find(|l| l.starts_with('{')).ok_or_else(|| format!("pyfront.py {args:?} printed no result; stderr: {}", stderr.lines().rev().take(3).collect::<Vec<_>>().join(" / ")))?;
     let v: Value = serde_json::from_str(line).map_err(|e| e.to_string())?;
     if v.get("unavailable").is_some() { return Ok(None); }
     Ok(Some((Some(v), None)))
@@ -316,6 +322,35 @@ pub fn c19_part(report: &Report) {
             let f = report_failures(report, &v, "");
             report.section(json!({"part": "Python front end: Categorical(probabilities, lazy, perfect)", "what": "every table of length 0..=3 over 16 boundary floats incl. negative / NaN / infinite, as f32 and f64, fast / perfect / lazy: ValueError or a valid model",
                 "tables": n, "failures": f}));
+        }
+    }
+}
+
+
+/// One exhaustive sweep of `tools/pyfront.py` as a part of a property's check. `keep` selects the failures that
+/// belong to the calling property by substrings of their identity (empty = all).
+pub fn sweep(report: &Report, cmd: &str, arg: usize, what: &str, keep: &[&str], drop: &[&str]) {
+    let t = std::time::Instant::now();
+    match run_py_watch(&[cmd, &arg.to_string()], 600) {
+        Ok(None) => not_covered(report, "bindings not built or python3-vt missing"),
+        Err(e) => { eprintln!("MACHINERY: {e}"); std::process::exit(2); }
+        Ok(Some((None, _))) => {
+            report.violation(Violation { identity: format!("Python front end | sweep `{cmd}` | does not terminate"),
+                detail: format!("`python3-vt tools/pyfront.py {cmd} {arg}` was killed by the watchdog after 600 s (it takes seconds on the unchanged tree)"), case: json!({"kind": "none"}) });
+        }
+        Ok(Some((Some(mut v), _))) => {
+            let n = v["checked"].as_u64().unwrap_or(0);
+            report.add_states(n);
+            report.add_traces(n);
+            if let Some(fs) = v["failures"].as_array() {
+                let kept: Vec<Value> = fs.iter().filter(|f| {
+                    let w = f["what"].as_str().unwrap_or("");
+                    (keep.is_empty() || keep.iter().any(|k| w.contains(k))) && !drop.iter().any(|k| w.contains(k))
+                }).cloned().collect();
+                v["failures"] = Value::Array(kept);
+            }
+            let f = report_failures(report, &v, "");
+            report.section(json!({"part": format!("Python front end: `{cmd}` sweep"), "what": what, "bound": arg, "cases": n, "counters": v["counters"], "failures": f, "wall_s": t.elapsed().as_secs_f64()}));
         }
     }
 }
